@@ -698,10 +698,8 @@ class AttrSpec:
 
         Returns 256, 88, 16 or 1.
         """
-        if self.__value & _HIGH_88_COLOR:
-            return 88
         if self.__value & (_BG_HIGH_COLOR | _FG_HIGH_COLOR):
-            return 256
+            return 88 if self.__value & _HIGH_88_COLOR else 256
         if self.__value & (_BG_TRUE_COLOR | _FG_TRUE_COLOR):
             return 2**24
         if self.__value & (_BG_BASIC_COLOR | _FG_BASIC_COLOR):
